@@ -58,8 +58,11 @@ class PythonMethodAnalyzer:  # thailint: ignore[srp]
             exclude_names: Action verb names to exclude (uses defaults if None)
         """
         self.max_body_statements = max_body_statements
-        self.exclude_prefixes = exclude_prefixes or DEFAULT_EXCLUDE_PREFIXES
-        self.exclude_names = exclude_names or DEFAULT_EXCLUDE_NAMES
+        # An explicitly empty override (exclude_prefixes_override: []) means "exclude nothing"
+        self.exclude_prefixes = (
+            DEFAULT_EXCLUDE_PREFIXES if exclude_prefixes is None else exclude_prefixes
+        )
+        self.exclude_names = DEFAULT_EXCLUDE_NAMES if exclude_names is None else exclude_names
         self.candidates: list[PropertyCandidate] = []
         self._visited_classes: set[int] = set()
 
